@@ -614,7 +614,7 @@ fn run(ctx: &Ctx) {
         return;
     }
     if ctx.tier == Tier::Thorough {
-        ctx.run_fuzz("libfuzzer_dsl_text", "dsl_text", (600_000.0 * ctx.scale) as u64, 4000, "coverage-guided libFuzzer campaign over DSL text (seed corpus = the 46 repository fixtures): whatever parses must be complete and re-serialisable (C13), and parse -> validate -> calculate -> format must end in a result or clean error (C15); evaluations = executions, distinct_nontrivial = distinct corpus entries");
+        ctx.run_fuzz("libfuzzer_dsl_text", "dsl_text", (250_000.0 * ctx.scale) as u64, 4000, "coverage-guided libFuzzer campaign over DSL text (seed corpus = the 46 repository fixtures): whatever parses must be complete and re-serialisable (C13), and parse -> validate -> calculate -> format must end in a result or clean error (C15); evaluations = executions, distinct_nontrivial = distinct corpus entries");
     }
 }
 
